@@ -574,7 +574,31 @@ def expandedThenRestartedBefore (evs : List Ev) (n : Nat) : Bool :=
   let afterRestart := (afterCc.dropWhile (fun e => !isMark "restart" e)).drop 1
   afterRestart.any isSkip
 
-def monC01 (evs : List Ev) : String :=
+/-- hypothesis of `election_safety` evaluated on the case itself: at every timer op the node's membership (initial
+    list, `cc` ops applied, reset to the initial list by `restart`) has exactly the other header nodes as voters -/
+def membStaticAtTimers (hs : List Head) (ops : List String) : Bool :=
+  let ids := hs.map (·.id)
+  let init : List Memb := hs.map fun h => Memb.mk' h.id h.initial
+  let step (acc : List Memb × Bool) (op : String) : List Memb × Bool :=
+    let p := op.splitOn ","
+    let name := p.getD 0 ""
+    let idx := ((p.getD 1 "").toNat?).getD 0
+    match acc.1[idx]?, hs[idx]? with
+    | some m, some h =>
+      if name == "cc" then
+        match parseChange (p.getD 2 "") with
+        | some ch => (acc.1.set idx (m.apply ch).1, acc.2)
+        | none => acc
+      else if name == "restart" then (acc.1.set idx (Memb.mk' h.id h.initial), acc.2)
+      else if name == "to" then
+        let vs := m.voters
+        let ok := vs.all (fun v => ids.contains v && v != h.id) && ids.all (fun v => v == h.id || vs.contains v)
+        (acc.1, acc.2 && ok)
+      else acc
+    | _, _ => acc
+  (ops.foldl step (init, true)).2
+
+def monC01 (static : Bool) (evs : List Ev) : String :=
   if leadersOK (leadersOf evs) then
     (if (leadersOf evs).isEmpty then "skip" else "ok")
   -- open finding F25 (C28): a node that was started alone, expanded by configuration changes and then restarted
@@ -583,6 +607,8 @@ def monC01 (evs : List Ev) : String :=
   -- cc on n ... restart of n ... request-free win of n with no voters.
   else if evs.any (fun | .skip n v => v == 0 && expandedThenRestartedBefore evs n | _ => false) then
     "bad two-leaders-after-restart-with-initial-config"
+  -- the trace leaves the theorem's hypothesis (the nodes do not share one static voter list): no C01 judgement
+  else if !static then "skip"
   else "bad two-leaders"
 
 def monC03cl (evs : List Ev) : String :=
@@ -616,7 +642,10 @@ def monitorLine (prop : String) (line : String) : String :=
         let learners := match parseCl case with
           | some (hs, _) => (hs.filter (·.learner)).map (·.id)
           | none => []
-        if prop == "C01" then monC01 evs
+        let static := match parseCl case with
+          | some (hs, ops) => membStaticAtTimers hs ops
+          | none => true
+        if prop == "C01" then monC01 static evs
         else if prop == "C02" then monC02 learners evs
         else if prop == "C03" then monC03cl evs
         else if prop == "C31" then monC31 learners evs
